@@ -386,6 +386,14 @@ func verifC01Store(progs []vSProg) {
 		}
 		verifrt.Assert(ok, "C01 the query returns exactly the satisfying entities: "+p.text)
 		verifrt.Assert(verifrt.And(count == nWant, int64(len(ids)) == nWant), "C01 no entity is returned twice and the count matches: "+p.text)
+		// cursor-style evaluation of the same filter
+		if parsed, perr := ast.Parse(store, p.text); perr == nil {
+			var it []string
+			for c := store.IterateIds(tx, parsed); c.IsValid(); c.Next() {
+				it = append(it, string(c.Current()))
+			}
+			verifrt.Assert(verifSameStrings(it, ids), "C01 IterateIds yields the same entities as QueryIds: "+p.text)
+		}
 	})
 }
 
